@@ -26,6 +26,24 @@ def sortDesc (mx : Bool) : List (Nat × Ind) → List (Nat × Ind)
   | [] => []
   | a :: l => insertDesc mx a (sortDesc mx l)
 
+/-- lexicographic `<` on genomes (Python tuple comparison) -/
+def lexLt : List Rat → List Rat → Bool
+  | [], [] => false
+  | [], _ :: _ => true
+  | _ :: _, [] => false
+  | a :: as, b :: bs => if a < b then true else if b < a then false else lexLt as bs
+
+/-- insert into a list sorted ascending by genome, after equal genomes (stable) -/
+def insertLex (a : Nat × Ind) : List (Nat × Ind) → List (Nat × Ind)
+  | [] => [a]
+  | b :: l => if lexLt a.2.genome b.2.genome then a :: b :: l else b :: insertLex a l
+
+/-- `sorted(individuals, key=lambda ind: tuple(ind.genome))`: stable, ascending by genome.
+Inserting from the right keeps the input order of equal genomes when `insertLex` places
+an element *before* … so we fold from the left instead. -/
+def sortLex (l : List (Nat × Ind)) : List (Nat × Ind) :=
+  l.foldl (fun acc a => insertLex a acc) []
+
 /-- `int(len * truncation_factor)` with the product rounded to binary64 first -/
 def truncLen (n : Nat) (t : Rat) : Option Nat :=
   (F64.rnd ((n : Rat) * t)).map fun p => p.floor.toNat
@@ -66,7 +84,7 @@ def cluster (mx : Bool) (dist : Nat → Nat → Rat) (pop : List Ind) (phi t : R
     Option Result :=
   (truncLen pop.length t).bind fun m =>
   if m = 0 then none else
-  let s := (sortDesc mx (List.zipIdx pop |>.map fun p => (p.2, p.1))).take m
+  let s := (sortDesc mx (sortLex (List.zipIdx pop |>.map fun p => (p.2, p.1)))).take m
   -- a second individual with an identical genome gets the same node id: the code skips it
   let isDup := fun (j : Nat) => match s[j]? with
     | some p => (s.take j).any fun q => q.2.genome == p.2.genome
